@@ -77,6 +77,48 @@ def duplicate_id_headers(ctx, r2, w2j, rid):
             r2.check(oko, f"duplicate id headers[only {only}]", "no warning, nothing dropped", w2j.loc())
 
 
+def choice_list_obligations(ctx, rule, rid):
+    """validate_choice_list over every list of up to 3 choices drawn from {a, a-without-label, b, b-without-label} and both
+    settings of allow_choice_duplicates: each choice without a label gets its own row-citing warning (whether or not its
+    name repeats), and a repeated name is an error exactly when duplicates are not allowed (whether or not the rows
+    have labels)."""
+    import itertools as _it
+    from ..interp import Raised
+    vc = ctx.func("pyxform.validators.pyxform.choices:validate_choice_list", rid)
+    kinds = {"a": {"name": "a", "label": "A"}, "a-": {"name": "a"}, "b": {"name": "b", "label": {"en": "B"}}, "b-": {"name": "b", "media": {"image": "b.png"}}}
+    n = 0
+    bad = []
+    for k in (1, 2, 3):
+        for combo in _it.product(kinds, repeat=k):
+            for allow in (False, True):
+                opts = [dict(kinds[c], __row=i + 2) for i, c in enumerate(combo)]
+                names = [o["name"] for o in opts]
+                dup_rows = [o["__row"] for i, o in enumerate(opts) if o["name"] in names[:i]]
+                nolabel_rows = [o["__row"] for o in opts if "label" not in o]
+                w = []
+                it = ctx.interp(rid)
+                it.reset([])
+                try:
+                    it.call_function(vc, [], {"options": opts, "warnings": w, "allow_duplicates": allow}, None, vc.node)
+                    outcome = "ok"
+                except Raised as e:
+                    outcome = "error" if "PyXFormError" in e.mro else f"raises {e.exc_name}"
+                    msg = str(e.exc_args[0]) if e.exc_args else ""
+                n += 1
+                want = "error" if (dup_rows and not allow) else "ok"
+                if outcome != want:
+                    bad.append(f"{combo} allow_duplicates={allow}: {outcome}, expected {want}")
+                elif outcome == "error":
+                    if not all(f"[row : {r_}]" in msg for r_ in dup_rows):
+                        bad.append(f"{combo}: the duplicate error does not cite rows {dup_rows}: {msg[:80]!r}")
+                else:
+                    cited = sorted(r_ for r_ in range(2, 6) if any(f"[row : {r_}]" in str(x) for x in w))
+                    if cited != nolabel_rows or len(w) != len(nolabel_rows):
+                        bad.append(f"{combo} allow_duplicates={allow}: warnings cite rows {cited}, choices without a label are on rows {nolabel_rows}")
+    rule.check(not bad and n >= 150, "validate_choice_list[all lists of <= 3 choices x allow_duplicates]", f"{n} lists: one warning per unlabeled choice; a repeated name is an error iff duplicates are not allowed",
+               vc.loc(), why_fail="; ".join(bad[:3]))
+
+
 def run(ctx):
     repo = ctx.repo
     it0 = ctx.consts.interp
@@ -198,6 +240,9 @@ def run(ctx):
     else:
         r2.fail("no-label warning", "one warning site for unlabeled groups / repeats in the row loop", w2j.loc(loop), why_fail=f"{len(nolabel)} sites")
     duplicate_id_headers(ctx, r2, w2j, "C20.R2")
+    choice_list_obligations(ctx, r2, "C20.R2")
+    from ..rowloop import row_prologue_obligations
+    row_prologue_obligations(ctx, r2, "C20.R2")
     rules += [r2, r3]
 
     # ------------------------------------------------------------------ R4
